@@ -5,6 +5,7 @@ mod explore;
 mod kernel;
 mod msim;
 mod osim;
+mod psim;
 mod props;
 mod trace;
 mod wire;
@@ -88,6 +89,7 @@ fn main() {
             "C15" => print_replay(&id, props::c15::replay(&name, &path)),
             "C16" => print_replay(&id, props::c16::replay(&name, &path)),
             "C17" => print_replay(&id, props::c17::replay(&name, &path)),
+            "C18" => print_replay(&id, props::c18::replay(&name, &path)),
             "C19" => print_replay(&id, props::c19::replay(&name, &path)),
             _ => {
                 eprintln!("unknown property {id}");
@@ -111,6 +113,7 @@ fn main() {
             "C15" => props::c15::check(&tier),
             "C16" => props::c16::check(&tier),
             "C17" => props::c17::check(&tier),
+            "C18" => props::c18::check(&tier),
             "C19" => props::c19::check(&tier),
             _ => {
                 eprintln!("unknown property {id}");
